@@ -21,6 +21,10 @@ func (k msgServer) UpdateCyclelist(ctx context.Context, req *types.MsgUpdateCycl
 		return nil, errorsmod.Wrapf(types.ErrInvalidSigner, "invalid authority; expected %s, got %s", k.keeper.GetAuthority(), req.Authority)
 	}
 
+	// block processing rotates through the list every block and cannot work with an empty one
+	if len(req.Cyclelist) == 0 {
+		return nil, errorsmod.Wrap(types.ErrInvalidQueryData, "cycle list cannot be empty")
+	}
 	if err := k.keeper.Cyclelist.Clear(ctx, nil); err != nil {
 		return nil, err
 	}
